@@ -12,6 +12,7 @@ pub mod c08;
 pub mod c09;
 pub mod c10;
 pub mod c11;
+pub mod c11_sched;
 pub mod lo;
 pub mod c12;
 pub mod c13;
@@ -80,7 +81,13 @@ pub fn run_worker(id: &str, ctx: &Ctx, rep: &mut Report) {
         "C08" => c08::run(ctx, rep),
         "C09" => c09::run(ctx, rep),
         "C10" => c10::run(ctx, rep),
-        "C11" => c11::run_sweep(ctx, rep),
+        "C11" => {
+            if ctx.part == "sched" {
+                c11_sched::run(ctx, rep)
+            } else {
+                c11::run_sweep(ctx, rep)
+            }
+        }
         "C12" => c12::run(ctx, rep),
         "C13" => c13::run(ctx, rep),
         "C14" => c14::run(ctx, rep),
@@ -103,6 +110,19 @@ pub fn run_parent(id: &str, tier: Tier, seed: u64) -> Report {
             let dir = crate::scratch::path("c19subjects");
             c19::prepare(tier, seed, &dir);
             crate::explore::run_sharded(id, &dir, tier, seed, p.cap_s, p.shards, None)
+        }
+        "C11" => {
+            let mut rep = crate::explore::run_sharded(id, "sweep", tier, seed, p.cap_s, p.shards, None);
+            // schedule part under owned hash seeds
+            let shim = crate::cli::shim();
+            let nseeds = if tier.thorough() { 4 } else { 2 };
+            for hs in 0..nseeds {
+                std::env::set_var("VERIF_HASH_SEED", (seed + hs).to_string());
+                let r = crate::explore::run_sharded(id, "sched", tier, seed, p.cap_s, p.shards, shim.as_deref());
+                rep.merge(r);
+            }
+            rep.completed.extend(std::mem::take(&mut rep.completed_counts).into_keys());
+            rep
         }
         "C18" => {
             let mut rep = crate::explore::run_sharded(id, "", tier, seed, p.cap_s, p.shards, None);
